@@ -179,11 +179,71 @@ HandleTx ==
     /\ UNCHANGED <<parent, content, best, pool, ntfB, wchain, wmem, up>>
 
 (***************************************************************************)
+(* Crash and restart (C06).  The wallet is part of the node process: a     *)
+(* crash loses every volatile variable of both - queued notifications, the *)
+(* node mempool, the follower's in-memory tip and pending-id set - and     *)
+(* keeps what was committed: the chain database (best) and the wallet      *)
+(* database (wchain, pend).  Because every handler step is one commit, a   *)
+(* crash "between any two commits" is a Crash between any two actions.     *)
+(*                                                                         *)
+(* Restart = NewNtfnsHandler (reads the synced tip) + Start: one           *)
+(* processConnectedBlock per height from synced+1 to the node's height,    *)
+(* each its own commit, through the same connect / reorganise code, before *)
+(* the node starts syncing (mass.go: LoadWallet precedes server.Start), so *)
+(* the chain does not move during catch-up.  RestartCrash(k) is a restart  *)
+(* that dies again after k catch-up commits.                               *)
+(***************************************************************************)
+CatchUpBlock(wc) == best[Len(wc) + 1]
+
+\* state after n catch-up steps (or as many as are needed): <<wchain, pend>>
+\* When the node's chain is not longer than the synced chain, Start hands the node's tip to the
+\* block step once if it differs from the synced tip (a reorganisation to a branch that is not
+\* longer happened while the wallet was down).
+NeedsTipStep(wc) == Len(best) <= Len(wc) /\ best # <<>> /\ Last(best) # Last(wc)
+
+RECURSIVE CatchUp(_, _, _)
+CatchUp(wc, p, n) ==
+    IF n = 0 THEN <<wc, p>>
+    ELSE IF Len(wc) < Len(best)
+         THEN LET wc2 == Abs(wc, CatchUpBlock(wc))
+              IN CatchUp(wc2, PendAfter(p, wc, wc2), n - 1)
+         ELSE IF NeedsTipStep(wc)
+              THEN LET wc2 == Abs(wc, Last(best)) IN <<wc2, PendAfter(p, wc, wc2)>>
+              ELSE <<wc, p>>
+
+\* number of commits of a full catch-up
+CatchUpSteps(wc) == IF Len(best) > Len(wc) THEN Len(best) - Len(wc)
+                    ELSE IF NeedsTipStep(wc) THEN 1 ELSE 0
+
+Crash ==
+    /\ up
+    /\ up' = FALSE
+    /\ ntfB' = <<>> /\ ntfT' = <<>> /\ pool' = {}
+    /\ memp' = {} /\ wmem' = 0
+    /\ UNCHANGED <<parent, content, best, wchain, pend>>
+
+Restart ==
+    /\ ~up
+    /\ LET r == CatchUp(wchain, pend, CatchUpSteps(wchain))
+       IN /\ wchain' = r[1] /\ pend' = r[2]
+          /\ wmem' = IF r[1] = <<>> THEN 0 ELSE Last(r[1])
+    /\ up' = TRUE
+    /\ UNCHANGED <<parent, content, best, pool, ntfB, ntfT, memp>>
+
+RestartCrash(k) ==
+    /\ ~up
+    /\ k \in 1..CatchUpSteps(wchain)
+    /\ LET r == CatchUp(wchain, pend, k)
+       IN wchain' = r[1] /\ pend' = r[2]
+    /\ UNCHANGED <<parent, content, best, pool, ntfB, ntfT, memp, wmem, up>>
+
+(***************************************************************************)
 (* Properties                                                              *)
 (***************************************************************************)
 Quiescent == up /\ ntfB = <<>> /\ ntfT = <<>>
 
 \* C01 (sync part): once every notification is processed the wallet is on the best chain
+\* C06: ... also after any number of crashes and restarts
 SyncedWhenQuiet == Quiescent => wchain = best
 
 \* the transcription of the code's reorg walk agrees with the abstract step
@@ -192,6 +252,6 @@ AlgoAgrees == (up /\ ntfB # <<>> /\ wmem = (IF wchain = <<>> THEN 0 ELSE Last(wc
 
 MemTipIsDurableTip == up => wmem = (IF wchain = <<>> THEN 0 ELSE Last(wchain))
 
-\* C09 (design level): the pending set never contains a confirmed or conflicted transaction
+\* C09 (design level): the pending set never contains a confirmed, conflicted or orphaned transaction
 PendingExact == Quiescent => pend = Settle(pend, CC(wchain))
 =============================================================================
